@@ -15,6 +15,11 @@ SPACES = {
         (dict(nv=3, maxl=3, minl=3, classes=("D", "U")), "REDUCED"),
         # two vertices at hop distance 2 with different parents need 5 vertices / 4 links
         (dict(nv=5, maxl=4, minl=4, classes=("U",), pairs="upper", self_loops=False), "LEAN"),
+        # a vertex outside the universe next to a path of length 2 needs 4 vertices
+        (dict(nv=4, maxl=3, minl=3, classes=("D",), self_loops=False), "REDUCED"),
+        # many links over few pairs (stack / queue growth, repeated neighbours): up to 8 links
+        (dict(nv=3, maxl=8, minl=4, classes=("D",), pairs=[(0, 1), (0, 2)]), "REDUCED"),
+        (dict(nv=3, maxl=6, minl=4, classes=("D",), pairs=[(0, 1), (0, 2), (1, 2)]), "REDUCED"),
     ],
     "thorough": [
         (dict(nv=5, maxl=4, minl=4, classes=("D",), self_loops=False), "LEAN"),
